@@ -321,8 +321,8 @@ func c08Check(c c08Case) *Violation {
 		var base []mreg
 		fromLoc := func(l Loc) mreg {
 			comp := false
-			if l.K == "co" {
-				comp = true
+			for l.K == "co" && len(l.Parts) == 1 {
+				comp = !comp // complement(complement(x)) is x again
 				l = l.Parts[0]
 			}
 			var segs [][2]int
@@ -623,7 +623,8 @@ func c08Gen(t *rapid.T) c08Case {
 		case 2:
 			a := rapid.IntRange(1, L).Draw(t, "a")
 			b := rapid.IntRange(a, L).Draw(t, "b")
-			c.Spec = rapid.SampledFrom([]string{fmt.Sprint(a), fmt.Sprintf("%d..%d", a, b), fmt.Sprintf("complement(%d..%d)", a, b)}).Draw(t, "locspec")
+			c.Spec = rapid.SampledFrom([]string{fmt.Sprint(a), fmt.Sprintf("%d..%d", a, b), fmt.Sprintf("complement(%d..%d)", a, b),
+				fmt.Sprintf("complement(complement(%d..%d))", a, b), fmt.Sprintf("complement(complement(complement(%d)))", a), fmt.Sprintf("complement(%d)", a)}).Draw(t, "locspec")
 		default:
 			m := c08GenMod(t, L, 0, 0)
 			c.Spec = m.text()
